@@ -39,11 +39,24 @@ func init() {
 			l := loc{name: name, idx: []string{"", ""}, sort: "Int"}
 			cur := fc.heapTerm(st, name, l.arraySort())
 			inner := tSel(cur, b.Arr)
+			// the k bytes are the unique base-256 digits of v
+			sum := "0"
 			for k := 0; k < w.k; k++ {
-				shift := pow2(int64(8 * (w.k - 1 - k))).String()
-				byteV := sx("mod", sx("div", v.S, shift), "256")
-				inner = tStore(inner, tAdd(b.Off, num(int64(k))), byteV)
+				bk := fc.sc.fresh("put", "Int")
+				fc.sc.assume(sx("inr", bk, "0", "255"))
+				mul := pow2(int64(8 * (w.k - 1 - k))).String()
+				term := sx("*", bk, mul)
+				if mul == "1" {
+					term = bk
+				}
+				if sum == "0" {
+					sum = term
+				} else {
+					sum = sx("+", sum, term)
+				}
+				inner = tStore(inner, tAdd(b.Off, num(int64(k))), bk)
 			}
+			fc.sc.assume(tEq(sum, v.S))
 			st.heap[name] = fc.nameTerm("hp", l.arraySort(), tStore(cur, b.Arr, inner))
 			fc.noteWrite(name)
 			return unit()
@@ -66,4 +79,53 @@ func init() {
 		return v
 	}
 	envFuncs["fmt.Errorf"] = envFuncs["errors.New"]
+	envFuncs["(*sync.Pool).Put"] = nop
+	envFuncs["(*sync.Pool).Get"] = func(fc *FnCtx, fr *Frame, st *State, reach string, args []Val, call ssa.CallInstruction) Val {
+		v := fc.freshVal(st, call.Common().Signature().Results().At(0).Type(), "pooled")
+		fc.poolVals[v.Tag] = true
+		return v
+	}
+	// binary.ReadUvarint(r): calls r.ReadByte() up to 10 times.
+	envFuncs["encoding/binary.ReadUvarint"] = func(fc *FnCtx, fr *Frame, st *State, reach string, args []Val, call ssa.CallInstruction) Val {
+		resT := call.Common().Signature().Results()
+		r := args[0]
+		rbT := fc.eng.lookupType("github.com/uber/tchannel-go/typed", "ReadBuffer")
+		if rbT != nil && r.Tag == fc.tagOf(types.NewPointer(rbT)) {
+			obj := &Addr{Kind: AObj, Base: r.S, Root: rbT, T: rbT}
+			st2 := structOf(rbT)
+			var remA, errA *Addr
+			for i := 0; i < st2.NumFields(); i++ {
+				a := *obj
+				a.Path = []int{i}
+				a.T = st2.Field(i).Type()
+				switch st2.Field(i).Name() {
+				case "remaining":
+					remA = &a
+				case "err":
+					errA = &a
+				}
+			}
+			oldRem := fc.load(st, remA)
+			oldErr := fc.load(st, errA)
+			k := fc.sc.fresh("uvk", "Int")
+			fc.sc.assume(tAnd(sx("<=", "0", k), sx("<=", k, "10"), sx("<=", k, oldRem.Len), tImp(tNot(tEq(oldErr.Tag, "0")), tEq(k, "0"))))
+			nr := oldRem
+			nr.Off, nr.Len, nr.Cap = tAdd(oldRem.Off, k), tSub(oldRem.Len, k), tSub(oldRem.Cap, k)
+			fc.store(st, remA, fc.nameVal(nr, "uvrem"))
+			ne := fc.freshVal(st, errA.T, "uverr")
+			fc.sc.assume(tImp(tNot(tEq(oldErr.Tag, "0")), tAnd(tEq(ne.Tag, oldErr.Tag), tEq(ne.S, oldErr.S))))
+			fc.store(st, errA, ne)
+			return fc.freshVal(st, resultType(resT), "uvarint")
+		}
+		return fc.unknownCall(fr, st, reach, "encoding/binary.ReadUvarint", resT, args, false)
+	}
+	envFuncs["encoding/binary.PutUvarint"] = func(fc *FnCtx, fr *Frame, st *State, reach string, args []Val, call ssa.CallInstruction) Val {
+		b := args[0]
+		n := fc.sc.fresh("uvn", "Int")
+		// PutUvarint panics if the buffer is too small: 10 bytes always suffice
+		fc.oblige(fr, "index", "binary.PutUvarint: buffer of at least 10 bytes", reach, sx(">=", b.Len, "10"), false, nil)
+		fc.sc.assume(tAnd(sx("<=", "1", n), sx("<=", n, "10")))
+		fc.havocElems(st, b)
+		return intVal(types.Typ[types.Int], n)
+	}
 }
